@@ -3,7 +3,7 @@ import hypothesis.strategies as st
 import torch
 
 from ..envs import ALL_ENVS, SPECS, episode_cases, py_instance
-from ..episode import flat_mask, pick_actions, row_done
+from ..episode import flat_mask, pick_actions, row_done, seed_reset
 from ..play import play
 from ..runner import Sub, ops_minimizer
 from ..stateful import make_machine, run_history
@@ -16,7 +16,11 @@ RULE = (
     "library's rollout() with its random policy and max_steps=bound. machine: Hypothesis RuleBasedStateMachine over "
     "the batched state with rules step(stream choices) / step(finished rows take last|first offered action). "
     "Non-trivial = batch in which some row finished >=2 steps before another (mixed finished/unfinished states); "
-    "environments whose rows always finish together are judged on the invariants only."
+    "environments whose rows always finish together are judged on the invariants only. FJSP/JSSP also with "
+    "check_mask=True (the step's own assertion must never fire) and stepwise_reward=True; MDCPDP also start_mode='random'. "
+    "ctor_kwargs: env built with allow_done_after_reset / run_type_checks (and batch_size=[B] + argument-less reset() "
+    "for FLP/MCP, the only envs whose construction accepts it on the pinned tree), started via reset(batch_size=int) | "
+    "reset(batch_size=[B]) | reset(): reset state equal to the plain env's under the same seed, same episode invariants."
 )
 ASSUMPTIONS = [
     "step bounds: n (TSP/ATSP/PDP/SMTWTP), n+1 (PDP forced start, PCTSP), 2n+1 (CVRP/CVRPTW/MTVRP), n+T (SVRP), "
@@ -95,6 +99,95 @@ def execute_rollout(case, ctx):
         ctx.nontriv()
 
 
+# ---------------------------------------------------------------- constructor options of RL4COEnvBase / reset routes
+def ctor_cases(tier):
+    @st.composite
+    def c(draw):
+        case = draw(episode_cases(tier, ALL_ENVS, sources=("gen",)))
+        case.pop("env_shape", None)
+        case["stepping"] = "default"
+        opts = {}
+        if draw(st.booleans()):
+            opts["allow_done_after_reset"] = True
+        if draw(st.booleans()):
+            opts["run_type_checks"] = True
+        route = draw(st.sampled_from(["int", "int", "list", "ctor_batch_size"]))
+        if route == "ctor_batch_size":
+            if case["env"] in ("flp", "mcp"):
+                # RL4COEnvBase(batch_size=[B]) + argument-less reset(): on the pinned tree only the environments without
+                # tensor specs accept a constructor batch size (every other env raises in torchrl's spec/batch-size
+                # consistency check at construction - unsupported there, not drawn)
+                opts["batch_size"] = [case["B"]]
+            else:
+                route = "int"
+        case["ctor"], case["route"] = opts, route
+        return case
+    return c()
+
+
+def execute_ctor(case, ctx):
+    """Episodes on env objects built with the base-class constructor options allow_done_after_reset / run_type_checks
+    (/ batch_size for FLP, MCP) and started through reset(batch_size=<int>) / reset(batch_size=[B]) / reset(): the reset
+    state is the one the plain env produces by reset(batch_size=[B]) under the same torch seed, and the episode obeys the
+    same invariants (an action for every row, done monotone, step bound)."""
+    from ..episode import run_episode
+
+    name, cfg, B = case["env"], case["cfg"], case["B"]
+    spec = SPECS[name]
+    sl = spec.slice_of(cfg)
+    opts, route = case["ctor"], case["route"]
+    tag = "+".join(sorted(opts)) or "no_option"
+    ctx.event(f"env:{name}")
+    ctx.event(f"ctor:{tag}")
+    ctx.event(f"reset_route:{route}")
+    plain = ctx.guard(spec.env, cfg, what=f"build_env|{name}")
+    env = ctx.guard(spec.build, dict(cfg, _ctor=opts), what=f"build_env|{name}|{tag}")
+    torch.manual_seed(case["seed"])
+    ref = ctx.guard(plain.reset, batch_size=[B], what=f"reset|{name}")
+    torch.manual_seed(case["seed"])
+    if route == "int":
+        td = ctx.guard(env.reset, batch_size=B, what=f"reset(batch_size=int)|{name}|{tag}")
+    elif route == "list":
+        td = ctx.guard(env.reset, batch_size=[B], what=f"reset(batch_size=list)|{name}|{tag}")
+    else:
+        td = ctx.guard(env.reset, what=f"reset()|{name}|{tag}")
+    ctx.check(tuple(td.batch_size) == (B,), f"{name}|{sl}|reset_batch_size|{route}",
+              f"reset via route {route} returned batch size {tuple(td.batch_size)}, requested {B}")
+    for k in ref.keys():
+        a, b = ref[k], td[k] if k in td.keys() else None
+        same = isinstance(b, torch.Tensor) and a.shape == b.shape and bool(((a == b) | ((a != a) & (b != b))).all())
+        if not same:
+            ctx.violation(f"{name}|{sl}|reset_state_differs|{route}|{tag}",
+                          f"state key {k!r} after reset via {route} on an env built with {opts} differs from "
+                          f"reset(batch_size=[{B}]) of the plain env under the same seed")
+            break
+    insts = [py_instance(name, td[b]) for b in range(B)]
+    rows = case["rows"]
+    modes = [rows[b % len(rows)]["mode"] for b in range(B)]
+    streams = [rows[b % len(rows)]["stream"] for b in range(B)]
+    try:
+        bound = max(spec.bound(cfg, r) for r in insts)
+    except KeyError:
+        bound = None  # bound needs instance keys the reset state does not carry under that name
+    if bound is None:
+        ctx.event("bound_unavailable_from_reset_state")
+        return
+    ep = ctx.guard(run_episode, env, td, modes, streams, bound + 3, False, False, what=f"episode|{name}|{tag}")
+    det = {"actions": ep.actions_tensor().tolist() if ep.T else [], "B": B, "ctor": opts, "route": route}
+    if ep.dead_end is not None:
+        t, b = ep.dead_end
+        ctx.violation(f"{name}|{sl}|dead_end|{'finished_row' if ep.finish_step(b) is not None else 'unfinished_row'}",
+                      f"row {b} is offered no action at step {t} (env built with {opts})", det)
+        return
+    if ep.done_regressed is not None:
+        ctx.violation(f"{name}|{sl}|done_regressed", "a finished row became unfinished again", det)
+    if ep.cap_hit:
+        ctx.violation(f"{name}|{sl}|step_bound", f"episode did not finish within {ep.T} steps (env built with {opts})", det)
+        return
+    if opts or route != "list":
+        ctx.nontriv()
+
+
 # ---------------------------------------------------------------- state machine
 class BatchHarness:
     """State = batched td of one env; every op steps the whole batch once."""
@@ -110,6 +203,7 @@ class BatchHarness:
         self.B = inst.batch_size[0]
         self.insts = [py_instance(self.name, inst[b]) for b in range(self.B)]
         self.bound = max(self.spec.bound(init["cfg"], r) for r in self.insts)
+        seed_reset(self.env, inst)  # resets that draw from the global RNG (MDCPDP start_mode="random") replay from the case
         self.td = ctx.guard(self.env.reset, inst.clone(), what=f"reset|{self.name}")
         self.done = row_done(self.td["done"], self.B)
         self.steps = 0
@@ -180,6 +274,7 @@ SUBS = [
         budget={"quick": 6000, "thorough": 80000}, shards=16),
     Sub("rollout", execute_rollout, strategy=lambda tier: episode_cases(tier, ALL_ENVS, sources=("gen",)),
         budget={"quick": 1500, "thorough": 20000}, shards=16),
+    Sub("ctor_kwargs", execute_ctor, strategy=ctor_cases, budget={"quick": 640, "thorough": 8000}, shards=16),
     Sub("machine", lambda case, ctx: run_history(BatchHarness, case, ctx), machine=machine,
         budget={"quick": 320, "thorough": 6000}, steps={"quick": 40, "thorough": 80}, shrink=False,
         minimize=ops_minimizer, shards=16),
